@@ -153,8 +153,7 @@ class C3Sem:
         self.globals = {}
         for T, name, init in prog.get("globals", ()):
             if init is not None:
-                t, v = self.eval(init, None)
-                self.globals[name] = self.make_storage(T, self.convert(v, t, T))
+                self.globals[name] = self.make_storage(T, self.init_value(T, init, None))
             else:
                 self.globals[name] = self.make_storage(T, (init_globals or {}).get(name))
 
@@ -196,6 +195,20 @@ class C3Sem:
             init = init or {}
             return ("struct", {f: self.make_storage(t, init.get(f)) for f, t in r[1]})
         return Cell(T, init)
+
+    def init_value(self, T, init, fr):
+        """initialiser (expression | ["list", ..] | ["named", ..]) -> initial contents for make_storage"""
+        r = self.ty.resolve(T)
+        if init[0] == "list":
+            if r[0] != "arr" or len(init[1]) != r[2]:
+                raise Unsupported("array initialiser shape")
+            return [self.init_value(r[1], x, fr) for x in init[1]]
+        if init[0] == "named":
+            if r[0] != "struct" or [f for f, _ in init[1]] != [f for f, _ in r[1]]:
+                raise Unsupported("struct initialiser shape")
+            return {f: self.init_value(t, x, fr) for (f, t), (_, x) in zip(r[1], init[1])}
+        t, v = self.eval(init, fr)
+        return self.convert(v, t, T)
 
     def read(self, loc):
         kind = loc[0]
@@ -485,10 +498,11 @@ class C3Sem:
             else:
                 st = fr["vars"][name] = self.make_storage(T)
             if init is not None:
-                t, v = self.eval(init, fr)
-                if not isinstance(st, Cell):
-                    raise Unsupported("aggregate initialiser")
-                st.val = self.convert(v, t, T)
+                val = self.init_value(T, init, fr)
+                if isinstance(st, Cell):
+                    st.val = val
+                else:
+                    fr["vars"][name] = self.make_storage(T, val)
         elif k == "assign":
             _, op, lv, e = s
             loc = self.lvalue(lv, fr)
@@ -561,4 +575,4 @@ class C3Sem:
             return st.val
         if st[0] == "arr" and all(isinstance(c, Cell) for c in st[2]):
             return [c.val for c in st[2]]
-        raise Unsupported("aggregate global")
+        return None         # struct: the layout is the implementation's choice; observed through reads only
